@@ -16,7 +16,9 @@ any dispatch table `impls`: the fragment never consults it).
   the file that passes the decidable check `closedOK` (`Model/GoFrag.lean`: scalars, struct values (user structs, closure
   environments) and enum values (recursive enums included), operators, struct / enum construction, field and payload
   access, `match` on enums (type switch), on bool / integers / strings (value switch) and on unit, `let`, `if`, `while`,
-  calls inside `G`, printing / `*_to_string` builtins; Go names pairwise distinct), every definite `Sem.apply` run (a value
+  `Ref` cells (the `Sem` store against the Go heap, `Hp` / `WRel`), tuples, fixed-size arrays, top-level functions as
+  values and calls through variables of function type, calls inside `G`, printing / `*_to_string` builtins; Go names
+  pairwise distinct; no Go constant expression whose exact value is not the run-time value), every definite `Sem.apply` run (a value
   or a panic, with its stdout and extern events) is reproduced by `callG` of the compiled function in the emitted file for
   some fuel, with the corresponding value (`toGV`: `C01.toG` on scalars, struct values field by field, an enum value as the
   Go struct of its variant) and the same observable world.  `compile_preserves_fragment` is
@@ -31,8 +33,9 @@ any dispatch table `impls`: the fragment never consults it).
   elimination it still does and no local is left unused.  `compile_wellformed_typed_partial` is the
   typing half for stage (a) functions (against the total mirror `GoTyping.fnOKT` of `Go.check`'s typing rules).
 
-What is missing for the full property (C01 for the back end): the fragment (tuples,
-`Ref`, arrays, `Vec`, closures as values, `dyn`, `go`, floats are outside — those
+What is missing for the full property (C01 for the back end): the fragment (`Vec`, `dyn` / trait
+objects, `go`, floats, operations on literals whose Go constant value is not the run-time value
+(`noConstExpr`), the string builtins beyond `builtinSig` are outside — those
 functions stay decided by the per-program oracles), divergence (forward simulation of definite
 runs only), and the composition with `eliminate_dead_vars` for a whole file (`dce_preserves` is
 per block, callees not DCE'd at the same time).
@@ -63,7 +66,7 @@ theorem tables_are_modelled :
     parameter types, `w` / `gw` worlds with the same stdout and extern events. -/
 theorem compile_preserves (env : Env) (file : AFile) (n0 : Nat) (G : List String)
     (hG : closedOK env file n0 G = true) (P : Prog) (hP : P.fns = file.map AFn.toFn) (f : AFn) (hf : f ∈ file) (hfG : f.name ∈ G)
-    (η : Hp) (args : List Val) (gargs : List GVal) (hargs : ArgsRel env η args gargs (f.params.map (·.2)))
+    (η : Hp) (hη : η.fns = fnSigs file G) (args : List Val) (gargs : List GVal) (hargs : ArgsRel env η args gargs (f.params.map (·.2)))
     (w : World) (gw : GWorld) (hw : WRel env η w gw) (fuel : Nat) :
     match Sem.apply fuel P w (.fn f.name) args with
     | .ok v w' => ∃ m η' gv gw', η.le η' ∧ callG m (goFilePreSt env file n0).1 gw (.func (fnName f.name)) gargs = .ok gv gw' ∧
@@ -71,7 +74,7 @@ theorem compile_preserves (env : Env) (file : AFile) (n0 : Nat) (G : List String
     | .fail (.panic k) w' => ∃ m η' gw', η.le η' ∧ callG m (goFilePreSt env file n0).1 gw (.func (fnName f.name)) gargs =
         .fail (.panic k) gw' ∧ WRel env η' w' gw'
     | _ => True := by
-  have h := (sim_all (link_of_closed hG hP) fuel).u f hf hfG η args gargs w gw hargs hw
+  have h := (sim_all (link_of_closed hG hP) fuel).u f hf hfG η args gargs w gw hη hargs hw
   revert h
   cases Sem.apply fuel P w (.fn f.name) args with
   | ok v w' =>
@@ -96,7 +99,8 @@ instance (env : Env) (file : AFile) (n0 : Nat) (f : AFn) : Decidable (InGoFragme
 /-- **T1 for `InGoFragment`** (`G` = the set `goodFns` computes, its closure re-checked) -/
 theorem compile_preserves_fragment (env : Env) (file : AFile) (n0 : Nat) (f : AFn) (hf : f ∈ file)
     (hfrag : InGoFragment env file n0 f) (P : Prog) (hP : P.fns = file.map AFn.toFn)
-    (η : Hp) (args : List Val) (gargs : List GVal) (hargs : ArgsRel env η args gargs (f.params.map (·.2)))
+    (η : Hp) (hη : η.fns = fnSigs file (goodFns env file n0)) (args : List Val) (gargs : List GVal)
+    (hargs : ArgsRel env η args gargs (f.params.map (·.2)))
     (w : World) (gw : GWorld) (hw : WRel env η w gw) (fuel : Nat) :
     match Sem.apply fuel P w (.fn f.name) args with
     | .ok v w' => ∃ m η' gv gw', η.le η' ∧ callG m (goFilePreSt env file n0).1 gw (.func (fnName f.name)) gargs = .ok gv gw' ∧
@@ -105,7 +109,7 @@ theorem compile_preserves_fragment (env : Env) (file : AFile) (n0 : Nat) (f : AF
         .fail (.panic k) gw' ∧ WRel env η' w' gw'
     | _ => True := by
   simp only [InGoFragment, inGoFragment, Bool.and_eq_true] at hfrag
-  exact compile_preserves env file n0 _ hfrag.1 P hP f hf (by simpa using hfrag.2) η args gargs hargs w gw hw fuel
+  exact compile_preserves env file n0 _ hfrag.1 P hP f hf (by simpa using hfrag.2) η hη args gargs hargs w gw hw fuel
 
 /-- **T1, whole program** (the shape `Props/C01pipe.lean` composes with): when the entry `main`
     (no parameters) is in the fragment, every definite `Sem.run` of the ANF program is the `runGo`
@@ -125,8 +129,8 @@ theorem compile_preserves_run (env : Env) (file : AFile) (n0 : Nat) (G : List St
   have hmainFind : (goFilePreSt env file n0).1.findFunc "main" = some mainFn := by
     have := find?_of_nodup (fun g : GFunc => g.name) _ hnd _ hmainMem
     simpa [GFile.findFunc, mainFn] using this
-  have hsim := (sim_all hl fuel).u f hf (hname ▸ hfG) {} [] [] { eager := eager } { eager := eager, capPolicy := 0 }
-    (by rw [hps]; trivial) (WRel.init env eager 0)
+  have hsim := (sim_all hl fuel).u f hf (hname ▸ hfG) { fns := fnSigs file G } [] [] { eager := eager } { eager := eager, capPolicy := 0 }
+    rfl (by rw [hps]; trivial) (WRel.init env eager 0 (fnSigs file G))
   rw [hname] at hsim
   have hfn : fnName "main" = "main0" := by simp [fnName, isEntry]
   rw [hfn] at hsim
@@ -182,7 +186,8 @@ structure Ready (env : Env) (η : Hp) (file : AFile) (G : List String) (Bad : Li
   names : GInv Bad (compileA env m st e).1 gρ
   target : TgtOK m Γ gρ (aTy e)
   blank : "_" ∈ Bad
-  callees : ∀ x, x ∈ calleesA e → x ∈ Bad
+  fns : FCtx file G Bad η
+  callees : ∀ x, x ∈ calleesA (Γ.map (·.1)) e → x ∈ Bad
 
 /-- **T1, statement level**: the statements `compile_aexpr_effect` / `compile_aexpr_assign` emit for
     an ANF expression of the fragment reproduce every definite `Sem.eval` run of it: same world, and
@@ -192,7 +197,7 @@ theorem compile_stmts_preserve (env : Env) (η : Hp) (file : AFile) (n0 : Nat) (
     (w : World) (gρ : GEnv) (gw : GWorld) (h : Ready env η file G Bad m st e Γ K ρ w gρ gw) (fuel : Nat) :
     Concl env η (goFilePreSt env file n0).1 (compileA env m st e).1 m gρ gw (aTy e)
       (Sem.eval fuel P ρ w e.toExpr) :=
-  (sim_all (link_of_closed hG hP) fuel).a m st e η Γ K ρ w gρ gw Bad h.frag h.envs h.known h.worlds h.names h.target h.blank h.callees
+  (sim_all (link_of_closed hG hP) fuel).a m st e η Γ K ρ w gρ gw Bad h.frag h.envs h.known h.worlds h.names h.target h.blank h.fns h.callees
 
 /-- **T3 `compile_order`**: the Go statements of `let x = v in body` are those of `v`
     (`letPrefix`, which does not depend on `body`) followed by those of `body`; the first part runs
@@ -215,7 +220,7 @@ theorem compile_order (env : Env) (η : Hp) (file : AFile) (n0 : Nat) (G : List 
      | _ => True) :=
   ⟨compileA_let env m st x v body ty,
    let_order (sim_all (link_of_closed hG hP) fuel).v (sim_all (link_of_closed hG hP) fuel).c m st x v body ty Γ K ρ w gρ gw Bad
-     h.frag h.envs h.known h.worlds h.names h.blank h.callees⟩
+     h.frag h.envs h.known h.worlds h.names h.blank h.fns h.callees⟩
 
 /-- operands keep their ANF order in the emitted expression (`Go.Sem` evaluates `l` before `r`, and
     call arguments left to right) -/
@@ -410,6 +415,45 @@ private def exVec : AFn :=
   { name := "push", params := [("v/0", .vec t32)], ret := .vec t32,
     body := .ret (.call (.var "vec_push" (.func [.vec t32, t32] (.vec t32))) [.var "v/0" (.vec t32), litI 1] (.vec t32)) }
 example : ¬ InGoFragment {} [exVec] 0 exVec := by unfold InGoFragment; decide +kernel
+/-- function values are inside: a top-level function passed as an argument (`apply(inc, 41)`) and called through the
+    parameter that holds it (`f(x)`: a Go call through a variable of function type) -/
+private def tFn : Ty := .func [t32] t32
+private def exInc : AFn :=
+  { name := "inc", params := [("a/0", t32)], ret := t32, body := .ret (.bin .add (.var "a/0" t32) (litI 1) t32) }
+private def exApply : AFn :=
+  { name := "apply", params := [("f/0", tFn), ("x/1", t32)], ret := t32,
+    body := .ret (.call (.var "f/0" tFn) [.var "x/1" t32] t32) }
+private def exMainF : AFn :=
+  { name := "main", params := [], ret := .unit,
+    body :=
+      .letE "r/0" (.call (.var "apply" (.func [tFn, t32] t32)) [.var "inc" tFn, litI 41] t32)
+      (.letE "t1" (.call (.var "int32_to_string" (.func [t32] .string)) [.var "r/0" t32] .string)
+      (.ret (.call (.var "string_println" (.func [.string] .unit)) [.var "t1" .string] .unit)) .unit) .unit }
+private def exFileF : AFile := [exInc, exApply, exMainF]
+example : InGoFragment {} exFileF 0 exInc ∧ InGoFragment {} exFileF 0 exApply ∧ InGoFragment {} exFileF 0 exMainF := by
+  refine ⟨?_, ?_, ?_⟩ <;> (unfold InGoFragment; decide +kernel)
+example : (Sem.run 200 (progOf exFileF)).status = "ok" ∧ (Sem.run 200 (progOf exFileF)).out = "42\n" := by
+  decide +kernel
+
+/-- an operation on literals only is a Go *constant expression* (finding C10: evaluated exactly and range-checked at compile
+    time — `2147483647 + 1` at `int32` does not compile, `0.1 + 0.2` is `0.3`), where `Go.Sem` is not faithful to Go: such
+    functions are outside the fragment (`noConstExpr`, checked on the emitted function); the same sum with a variable
+    operand is inside -/
+private def exConstI : AFn :=
+  { name := "k", params := [], ret := t32, body := .ret (.bin .add (litI 2147483647) (litI 1) t32) }
+private def exConstF : AFn :=
+  { name := "kf", params := [], ret := .float 64,
+    body := .ret (.bin .add (.prim (.float 64 0x3FB999999999999A) (.float 64)) (.prim (.float 64 0x3FC999999999999A) (.float 64)) (.float 64)) }
+/-- on the emitted expressions: the overflowing sum and the float sum are rejected, `1 + 2` (exact result in range: Go's
+    constant is the run-time value) is accepted -/
+example : noConstE (compileCExpr {} (.bin .add (litI 2147483647) (litI 1) t32)) = false ∧
+    noConstE (compileCExpr {} (.bin .add (litI 1) (litI 2) t32)) = true ∧
+    noConstE (compileCExpr {} (.bin .add (.prim (.float 64 0x3FB999999999999A) (.float 64))
+      (.prim (.float 64 0x3FC999999999999A) (.float 64)) (.float 64))) = false := by
+  refine ⟨?_, ?_, ?_⟩ <;>
+    simp [compileCExpr, compileImm, lit, litI, t32, goTy, noConstE, constG, constOpOK, intLitG, toString_toInt, gBin] <;> decide
+example : noConstExpr {} { n := 0, ok := true } exInc = true := by decide +kernel
+example : ¬ InGoFragment {} [exConstF] 0 exConstF := by unfold InGoFragment; decide +kernel
 end Examples
 
 end Goml.GoCompileProps
